@@ -55,6 +55,9 @@ func checkModelFacts(c ExecCase) (*Violation, modelFacts) {
 	if ev.quirk("exists_unary_sign_nonnumeric") {
 		quirks = append(quirks, "D17b")
 	}
+	if !ev.quirk("is_unknown_swallows_hard_error") {
+		quirks = append(quirks, "noD37")
+	}
 	mr := RunModel(pr.tree, pr.doc, c.Opts, vars, ev.quirk("subscript_drops_null"), quirks...)
 	if mr.Err != nil && mr.Err.dontCare {
 		f.excluded = "dont_care:" + firstWords(mr.Err.msg, 4)
@@ -78,6 +81,9 @@ func checkModelFacts(c ExecCase) (*Violation, modelFacts) {
 	}
 	if mr.UsedD17b {
 		f.kf = "D17b"
+	}
+	if mr.UsedD37 {
+		f.kf = "D37"
 	}
 	wantItems := mRenderSeq(mr.Items)
 	wantClass := EOK
